@@ -152,12 +152,14 @@ class UT(pyrx.ClassTranslator):
 
 HELPERS = ["gammaSq", "boostVelocity"]
 
-HYDRO_ATTRS = ["TMaxHydro", "TMinHydro"]
+HYDRO_ATTRS = ["TMaxHydro", "TMinHydro", "Tnucl"]
 HYDRO_EXT = [
     Pattern("self.thermodynamics.pHighT(_0)", "th_pHighT", "R -> R"),
     Pattern("self.thermodynamics.pLowT(_0)", "th_pLowT", "R -> R"),
     Pattern("self.thermodynamics.eHighT(_0)", "th_eHighT", "R -> R"),
     Pattern("self.thermodynamics.eLowT(_0)", "th_eLowT", "R -> R"),
+    Pattern("self.thermodynamics.dpLowT(_0)", "th_dpLowT", "R -> R"),
+    Pattern("self.thermodynamics.deLowT(_0)", "th_deLowT", "R -> R"),
     Pattern("self.thermodynamics.csqHighT(_0)", "th_csqHighT", "R -> R"),
     Pattern("self.thermodynamics.csqLowT(_0)", "th_csqLowT", "R -> R"),
 ]
@@ -200,6 +202,9 @@ def generate_formulas(src):
     defs.append(hy.method("_mappingT", types={"TpTm": "R * R"}, coq_name="hy_mappingT"))
     defs.append(hy.method("_inverseMappingT", types={"mappedTpTm": "R * R"},
                           coq_name="hy_inverseMappingT"))
+    # the function whose root is the Jouguet point (closure of findJouguetVelocity)
+    d, used = hy.closure("findJouguetVelocity", "vpDerivNum", "hy_vpDerivNum")
+    defs.append(d)
     out.append(hy.header())
     out += defs
     spans.update({k: ("hydrodynamics.py",) + tuple(v) for k, v in hy.spans.items()})
@@ -239,7 +244,11 @@ def generate_formulas(src):
 
 SITE_FILES = ["equationOfMotion.py", "hydrodynamics.py", "hydrodynamicsTemplateModel.py",
               "thermodynamics.py", "freeEnergy.py", "effectivePotential.py", "manager.py"]
+SITE_FILES += ["helpers.py", "config.py"]
 SIG_FILES = SITE_FILES + ["grid3Scales.py", "results.py"]
+# helpers.py is generic in the variable it differentiates with respect to: its position,
+# step and scale carry the pseudo-dimension XDIM (they must stay proportional to each other)
+XDIM = 1000
 
 # Reviewed naming table: identifier (variable, parameter, attribute or method name; the LAST
 # component of a dotted name) -> mass dimension.  First matching regex wins; per-file
@@ -248,7 +257,7 @@ SIG_FILES = SITE_FILES + ["grid3Scales.py", "results.py"]
 T1 = 1      # temperatures, field values
 DIMS = {
     "equationOfMotion.py": [
-        (r"meanFreePathScale$", -1),             # converted by the manager (divided by Tnucl)
+        (r"meanFreePathScale$|wallThicknessIni$", -1),   # converted by the manager (/ Tnucl)
         (r"wallThicknessBounds$|wallOffsetBounds$", 0),   # config, in units of 1/Tnucl / widths
         (r"pressAbsErrTol$", 4),
         (r"\.errTol$", 0),                       # the attribute: dimensionless configuration
@@ -256,6 +265,7 @@ DIMS = {
         (r"pressRelErrTol$|rtol$", 0),
     ],
     "manager.py": [
+        (r"initialWallThickness$", -1),          # WallSolver field: physical units
         (r"meanFreePathScale$|wallThickness(Ini|Guess)?$", 0),   # user input in units of 1/Tnucl
         (r"tailLength$", -1),
         (r"(initial|grid)MomentumFalloffScale$", 1),
@@ -268,16 +278,20 @@ DIMS = {
     "freeEnergy.py": [(r"tolAbsolute$", 1), (r"(rTol|extraTol)$", 0),
                       # eigenvalues of the Hessian of Veff: masses squared
                       (r"spinodalEvent$|^eigs\w*$|^d2V$|deriv2Field2$|^ddV\w*$", 2)],
+    "helpers.py": [(r"^x$|^scale$|^dx\w*$|^temp$|^bounds$", XDIM), (r"^epsilon$|pressureTol$", 0),
+                   # nextStepDeton works in pressure units such that |pressure2| = 1
+                   (r"^pressure\d$|^pos\w*$", None)],
     "grid3Scales.py": [(r"(tailLength(Inside|Outside)|wallThickness|wallCenter)$", -1),
                        (r"momentumFalloffT$", 1)],
     "*": [
         # dimensionless by name although they start like a temperature / pressure
+        (r"phaseTracerFirstStep$|effectivePotentialError$", 0),   # in units of dT / relative
         (r"TMultiplier$|multiplier$|success|^i$|index$|nbrFields$|^n$|^N$|^M$|^tmin$|^tmax$|"
          r"pressRelErrTol$", 0),
         # energy-momentum tensor components, pressures, energy densities, potential
         (r"^Tout3[03]$|^T3[03]$|^c[12]$|^s[12]$|[pP]ressure\w*$|^press\w*$|enthalpy$|"
          r"^veff\w*$|^[pew](High|Low)T$|^(p|e|w)(Low|High)$|kineticTerm$|^[pew][pm]$|"
-         r"effectivePotentialError$|^(evaluate|veffValue)$", 4),
+         r"^(evaluate|veffValue)$", 4),
         (r"^d[pe](High|Low)T$|derivT$", 3),
         (r"^dd[pe](High|Low)T$", 2),
         # temperatures and fields
@@ -297,7 +311,10 @@ DIMS = {
     ],
 }
 
-TOL_KW = ("xtol", "atol", "tol", "abstol", "absTol")
+# keywords (of solver calls, of their `options` dictionaries and of dictionaries later passed
+# as **kwargs) that are ABSOLUTE tolerances / steps in the units of the solver's unknown
+TOL_KW = ("xtol", "atol", "tol", "abstol", "absTol", "xatol", "fatol", "gtol", "ftol", "eps",
+          "first_step", "max_step", "min_step", "initial_step", "h0", "hmax", "hmin")
 REDUCE0 = {"exp", "log", "tanh", "cosh", "sinh", "arctanh", "arctan", "tan", "sign", "cos",
            "sin", "isscalar", "isnan", "isfinite", "len", "all", "any", "allclose"}
 SAME = {"abs", "float", "asarray", "array", "absolute", "squeeze", "real", "copy", "min",
@@ -322,12 +339,24 @@ class DimCheck:
             tree = ast.parse(sources[f])
             for n in tree.body:
                 if isinstance(n, ast.ClassDef):
+                    has_init = False
                     for m in n.body:
                         if isinstance(m, ast.FunctionDef):
                             ps = [a.arg for a in m.args.args if a.arg != "self"]
                             if m.name == "__init__":
+                                has_init = True
                                 self.sigs.setdefault(n.name, []).append((f, ps))
                             self.sigs.setdefault(m.name, []).append((f, ps))
+                    if not has_init and any("dataclass" in ast.unparse(d)
+                                            for d in n.decorator_list):
+                        # dataclass: the annotated fields are the constructor's parameters
+                        ps = [m.target.id for m in n.body if isinstance(m, ast.AnnAssign)
+                              and isinstance(m.target, ast.Name)]
+                        self.sigs.setdefault(n.name, []).append((f, ps))
+                elif isinstance(n, ast.FunctionDef):
+                    ps = [a.arg for a in n.args.args]
+                    self.sigs.setdefault(n.name, []).append((f, ps))
+        self.handled_dicts = set()
 
     # ---- table
     def table(self, file, name, attr=False):
@@ -363,6 +392,11 @@ class DimCheck:
                     for m in n.body:
                         if isinstance(m, ast.FunctionDef):
                             self.function(m, n.name + "." + m.name, {})
+                        elif isinstance(m, (ast.AnnAssign, ast.Assign)) and \
+                                getattr(m, "value", None) is not None:
+                            # class-level default (dataclass field, class constant)
+                            self.fun = n.name
+                            self.stmt(m, {}, n.name)
                 elif isinstance(n, ast.FunctionDef):
                     self.function(n, n.name, {})
         return [k + (self.sites[k],) for k in self.order]
@@ -459,6 +493,12 @@ class DimCheck:
             return db
         if zb:
             return da
+        # fail closed: a float literal (a tolerance, a floor, an offset) against something
+        # whose dimension the naming table cannot tell is recorded too (kind + "?")
+        if (da is None) != (db is None) and kind in ("cmp", "add"):
+            lit, other = (nb, na) if da is None else (na, nb)
+            if is_float_literal(lit):
+                self.site(kind + "?", "%s ~ %s" % (ast.unparse(lit), ast.unparse(other)), None)
         if da is None:
             return db
         if db is None:
@@ -555,8 +595,17 @@ class DimCheck:
         if isinstance(n, ast.Call):
             return self.call(n, env)
         if isinstance(n, ast.Dict):
-            for v in n.values:
-                self.dim(v, env)
+            for kk, v in zip(n.keys, n.values):
+                d = self.dim(v, env)
+                if id(n) in self.handled_dicts or not isinstance(kk, ast.Constant) or \
+                        kk.value not in TOL_KW or is_zero(v):
+                    continue
+                # a dictionary of solver keywords (passed on as **kwargs): an absolute
+                # tolerance / step that is a pure number or of unknown dimension is a site
+                if d == 0:
+                    self.site("xtol", "{%r: %s}" % (kk.value, ast.unparse(v)), None)
+                elif d is None and not (isinstance(v, ast.Constant) and v.value is None):
+                    self.site("xtol?", "{%r: %s}" % (kk.value, ast.unparse(v)), None)
             return None
         if isinstance(n, (ast.ListComp, ast.GeneratorExp)):
             return None
@@ -572,6 +621,9 @@ class DimCheck:
             f, ast.Attribute) else None
         if isinstance(f, ast.Attribute):
             self.dim(f.value, env) if isinstance(f.value, ast.Call) else None
+        for k in n.keywords:
+            if k.arg == "options" and isinstance(k.value, ast.Dict):
+                self.handled_dicts.add(id(k.value))     # judged below, with the unknown
         argd = [self.dim(a, env) for a in n.args]
         kwd = {k.arg: (k.value, self.dim(k.value, env)) for k in n.keywords if k.arg}
         # -- absolute tolerance keywords
@@ -581,6 +633,10 @@ class DimCheck:
             for kk, vv in zip(opt[0].keys, opt[0].values):
                 if isinstance(kk, ast.Constant) and kk.value in TOL_KW:
                     tol.append((kk.value, (vv, self.dim(vv, env))))
+        # -- finite-difference helpers must be given the scale of their variable
+        if fname in ("derivative", "gradient", "hessian") and "scale" not in kwd and \
+                (isinstance(f, ast.Name) or "super()" in ast.unparse(f)) and len(n.args) < 6:
+            self.site("noscale", "%s(...) without scale=" % ast.unparse(f), None)
         if tol:
             ud = _Unknown
             for key in ("bracket", "x0", "x1", "bounds"):
@@ -600,7 +656,12 @@ class DimCheck:
             for k, (vn, vd) in tol:
                 # calls of WallGo's own functions only pass the tolerance on (their
                 # parameters are checked against the naming table below)
-                if is_zero(vn) or vd is None or fname in self.sigs:
+                if is_zero(vn) or fname in self.sigs:
+                    continue
+                if vd is None:
+                    # fail closed: an absolute tolerance whose dimension cannot be told
+                    if not (isinstance(vn, ast.Constant) and vn.value is None):
+                        self.site("xtol?", "%s(%s=%s)" % (fname, k, ast.unparse(vn)), None)
                     continue
                 if isinstance(ud, tuple) or ud is None or ud != vd:
                     self.site("xtol", "%s(%s=%s)" % (fname, k, ast.unparse(vn)),
@@ -677,6 +738,14 @@ def fmt(d):
     return str(list(d)) if isinstance(d, tuple) else str(d)
 
 
+def is_float_literal(n):
+    """a non-zero literal of type float (possibly signed): 1e-6, 0.01, 1.2 ... (integers such
+    as loop bounds and array sizes are not tolerances)"""
+    if isinstance(n, ast.UnaryOp) and isinstance(n.op, (ast.USub, ast.UAdd)):
+        n = n.operand
+    return isinstance(n, ast.Constant) and isinstance(n.value, float) and n.value != 0.0
+
+
 def is_zero(n):
     c = pyrx.const_value(n) if isinstance(n, ast.AST) else None
     return c is not None and c == 0
@@ -734,7 +803,7 @@ def input_flows(sources):
                 uses[node.id][1 if cond else 0] = True
                 return
             if isinstance(node, (ast.If, ast.While)):
-                walk(node.test, cond)
+                # the test is a condition (e.g. a cache test), not a consumer of the input
                 for c in node.body + node.orelse:
                     walk(c, True)
                 return
@@ -769,11 +838,68 @@ def input_flows(sources):
                 return
             for c in ast.iter_child_nodes(node):
                 walk(c, cond)
+        cond = False
         for st in m.body:
-            walk(st, False)
+            walk(st, cond)
+            # everything after `if c: ... return ...` only runs when c is false
+            if isinstance(st, ast.If) and any(
+                    isinstance(x, ast.Return) for b in (st.body, st.orelse) for x in b):
+                cond = True
         for p in params:
             out.append((m.name, p, uses[p][0], uses[p][1]))
     return out
+
+
+SETUP_ROOTS = ["setupThermodynamicsHydrodynamics"]
+SOLVER_ROOTS = ["setupWallSolver", "solveWall", "solveWallDetonation", "wallSpeedLTE",
+                "buildGrid", "buildEOM"]
+
+
+def cached_attributes(sources):
+    """Cache-invalidation facts for WallGoManager: for every attribute `self.A` that is
+    ASSIGNED inside the wall-solving entry points (or the methods they call) -- i.e. state
+    created by solving -- : (A, also assigned by setupThermodynamicsHydrodynamics or a method
+    it calls?, read by the solving entry points?).  An attribute that solving creates and
+    reads but a new set-up does not rebuild survives a change of the inputs."""
+    fname, cname = FLOW_CLASS
+    tree = ast.parse(sources[fname])
+    cls = [n for n in tree.body if isinstance(n, ast.ClassDef) and n.name == cname][0]
+    meth = {m.name: m for m in cls.body if isinstance(m, ast.FunctionDef)}
+
+    def closure(roots):
+        seen, todo = set(), [r for r in roots if r in meth]
+        while todo:
+            r = todo.pop()
+            if r in seen:
+                continue
+            seen.add(r)
+            for n in ast.walk(meth[r]):
+                if isinstance(n, ast.Call) and isinstance(n.func, ast.Attribute) and \
+                        isinstance(n.func.value, ast.Name) and n.func.value.id == "self" \
+                        and n.func.attr in meth:
+                    todo.append(n.func.attr)
+        return seen
+
+    def attrs(names, store):
+        out = set()
+        for r in names:
+            for n in ast.walk(meth[r]):
+                if isinstance(n, ast.Attribute) and isinstance(n.value, ast.Name) and \
+                        n.value.id == "self" and isinstance(
+                            n.ctx, (ast.Store, ast.Del) if store else ast.Load):
+                    out.add(n.attr)
+        return out
+    setup, solver = closure(SETUP_ROOTS), closure(SOLVER_ROOTS)
+    if not setup or not solver:
+        raise TranslateError("WallGoManager entry points not found")
+    made, rebuilt, read = attrs(solver, True), attrs(setup, True), attrs(solver, False)
+    return [(a, a in rebuilt, a in read) for a in sorted(made)], sorted(setup), sorted(solver)
+
+
+def attrs_coq(rows):
+    return ("Definition solver_state : list cached := [\n" + ";\n".join(
+        "  mk_cached %s %s %s" % (coq_string(a), "true" if b else "false",
+                                  "true" if c else "false") for a, b, c in rows) + "\n].\n")
 
 
 def flows_coq(flows):
@@ -796,5 +922,5 @@ def sites_coq(sites):
             "Definition sites : list site := [\n" + ";\n".join(rows) + "\n].\n")
 
 
-def facts_coq(sites, flows):
-    return sites_coq(sites) + flows_coq(flows)
+def facts_coq(sites, flows, cached=()):
+    return sites_coq(sites) + flows_coq(flows) + attrs_coq(cached)
